@@ -34,6 +34,15 @@ def scenario(rng, S, M, hashmode, nsweeps, workers=0):
             lines.append("%s %d %d" % (rng.choice(["ins", "ins", "insmv", "upsmv", "ioamv"]), k, k * 10 % 997))
             present.append(k)
             i += 1
+            if workers:
+                # right after a doubling that deferred its migration: a helper thread that cannot be created while the batch
+                # migration of lock_table() / a resize runs must not cost a stripe (asked after every insertion, answered
+                # "skip" unless stripes are pending)
+                lines.append("ifpending thrsweep lock 0 0")
+                lines.append("ifpending sweep lock 0 0")
+                if rng.random() < 0.3:
+                    lines.append("ifpending thrsweep rehash %d 0" % rng.randrange(0, 7))
+                    lines.append("ifpending ltthrsweep ltins %d 9" % keys[-1])
             if rng.random() < 0.25:
                 # C16: duplicate paths must leave the arguments alone; compatible key types must agree
                 d = rng.choice(present)
@@ -76,6 +85,13 @@ def scenario(rng, S, M, hashmode, nsweeps, workers=0):
             ]
             for t in rng.sample(targets, min(len(targets), 6)):
                 lines.append(t)
+            if workers:
+                # the creation of the k-th helper thread fails (pthread_create -> EAGAIN -> std::system_error): batch
+                # migration (lock_table, the resize paths) must absorb it completely, a rebuild must fail atomically
+                thr = ["thrsweep lock 0 0", "thrsweep rehash %d 0" % rng.randrange(0, 7), "thrsweep reserve %d 0" % rng.choice([1, 40, 300]),
+                       "ltthrsweep ltrehash %d 0" % rng.randrange(0, 7), "ltthrsweep ltins %d 9" % fresh, "thrsweep clear 0 0"]
+                for t in rng.sample(thr, 3):
+                    lines.append(t)
             sweeps_left -= 1
     # exceptions thrown by user code: equality on a poisoned key, a throwing functor
     lines += ["poison 123456", "ins 123456 1", "find 123456 0", "scan", "poison 18446744073709551615"]
@@ -127,6 +143,8 @@ def classify(line_in, line_out):
         props = {"C07"}
         if "moved-from" in msg or "destroyed object" in msg or "lifetime" in msg or "leaked" in msg or "not returned" in msg:
             props.add("C08")
+        if "did not have its normal effect" in msg or "lost after the failure" in msg:
+            props.add("C08")        # elements dropped with an array that was released before its last stripe had migrated
         if "is held after the call" in msg:
             props.add("C04")
         if "size()" in msg or "[count" in msg or "count]" in msg or ", count" in msg:
@@ -179,7 +197,7 @@ def explore(tier, seed):
             if not out["samples"]:
                 out["samples"].append({"config": "S=%d M=%d TMOVE=%d hash=%d" % (c + (hm,)), "requests": lines[:25]})
             for li, lo in zip(lines, res):
-                if li.split()[0] in ("sweep", "ltsweep", "ctorsweep"):
+                if li.replace("ifpending ", "").split()[0] in ("sweep", "ltsweep", "ctorsweep", "thrsweep", "ltthrsweep"):
                     out["sweeps"] += 1
                     if lo.startswith("swept n="):
                         try:
